@@ -466,6 +466,14 @@ func (p *Parser) parseProviderArgument(pkg *packages.Package, kessokuPackageScop
 					return nil
 				}
 
+				if _, visited := build.visitedSets[varObj]; visited {
+					return nil
+				}
+				if build.visitedSets == nil {
+					build.visitedSets = make(map[*types.Var]struct{})
+				}
+				build.visitedSets[varObj] = struct{}{}
+
 				currentArg = p.getVarDecl(pkg, varObj)
 				if currentArg == nil {
 					slog.Warn("var declaration not found. Ignoring this Set call.", "obj", varObj)
